@@ -60,8 +60,15 @@ JOLIET_SCRIPTS = {
                                           ('file', '/E.;1', None, '/e', 0)]),
     'joliet-level1-many': (dict(joliet=1), [('file', '/F%03d.;1' % i, None, '/' + ('long joliet name number %03d ' % i) * 2, 1) for i in range(40)] +
                            [('rm_file', '/F007.;1', '/' + 'long joliet name number 007 ' * 2), ('dir', '/D', None, '/' + 'd' * 64)]),
+    'joliet-same-name-links': (dict(joliet=3), [('dir', '/A', None, '/a'), ('jdir', '/b'), ('file', '/A/FOO.;1', None, '/a/foo', 2850), ('jlink', '/A/FOO.;1', '/b/foo'),
+                                                ('rm_jlink', '/b/foo'), ('file', '/A/EARLIER.;1', None, '/a/earlier', 5000), ('dir', '/A/SUB', None, '/a/sub'),
+                                                ('jlink', '/A/FOO.;1', '/a/sub/foo'), ('jlink', '/A/FOO.;1', '/b/foo'), ('rm_jlink', '/a/sub/foo'), ('file', '/0.;1', None, '/0', 2049)]),
+    'joliet-many-dirs': (dict(joliet=3), [('dir', '/D%02d' % i, None, '/' + ('directory %02d ' % i) * 4 + 'xyz') for i in range(20)] +
+                         [('file', '/D05/F.;1', None, '/' + 'directory 05 ' * 4 + 'xyz' + '/f', 3), ('rm_dir', '/D07', '/' + 'directory 07 ' * 4 + 'xyz'),
+                          ('rm_dir', '/D19', '/' + 'directory 19 ' * 4 + 'xyz'), ('rm_dir', '/D18', '/' + 'directory 18 ' * 4 + 'xyz'), ('rm_dir', '/D17', '/' + 'directory 17 ' * 4 + 'xyz'),
+                          ('rm_dir', '/D16', '/' + 'directory 16 ' * 4 + 'xyz'), ('jdir', '/' + 'directory 05 ' * 4 + 'xyz' + '/joliet only sub')]),
     'joliet-rr-udf-less': (dict(joliet=2, rock_ridge='1.09'), [('dir', '/D', 'dee', '/Dee'), ('file', '/D/A.;1', 'a-rr', '/Dee/a-joliet', 10), ('symlink', '/S.;1', 'sym', 'dee/a-rr'),
-                                                                ('link', '/D/A.;1', '/L.;1'), ('file', '/M.;1', 'm', '/m', 3), ('rm_link', '/L.;1')]),
+                                                                ('link', '/D/A.;1', '/L.;1', 'l-rr'), ('file', '/M.;1', 'm', '/m', 3), ('rm_link', '/L.;1'), ('link', '/D/A.;1', '/D/K.;1', 'k-rr')]),
 }
 
 SCRIPTS_ALL = dict(SCRIPTS)
@@ -125,6 +132,8 @@ def model_of(script):
                 jol.pop(op[2], None)
         elif op[0] == 'link':
             iso[op[2]] = iso[op[1]]
+            if len(op) > 3:
+                rr[op[2]] = op[3]
         elif op[0] == 'rm_link':
             iso.pop(op[1], None)
             rr.pop(op[1], None)
@@ -183,7 +192,7 @@ def build(c, name):
         elif op[0] == 'rm_dir':
             S.call(c, iso, 'rm_directory', iso_path=op[1], **({'joliet_path': op[2]} if op[2] else {}))
         elif op[0] == 'link':
-            S.call(c, iso, 'add_hard_link', iso_old_path=op[1], iso_new_path=op[2])
+            S.call(c, iso, 'add_hard_link', iso_old_path=op[1], iso_new_path=op[2], **({'rr_name': op[3]} if len(op) > 3 else {}))
         elif op[0] == 'symlink':
             S.call(c, iso, 'add_symlink', symlink_path=op[1], rr_symlink_name=op[2], rr_path=op[3])
         elif op[0] == 'hide':
@@ -297,13 +306,19 @@ class Mastered(Base):
                 jt = R.logical_tree(im, jr)
                 want = sorted(('/' + '/'.join(x for x in p.split('/') if x)).encode('utf-16_be').replace('/'.encode('utf-16_be'), b'/') for p in jol_m)
                 cl['joliet-tree-is-what-the-edits-imply'] = sorted(jt) == want
-                same = []
+                same, jbytes = [], []
                 for p, v in jol_m.items():
                     key = p.encode('utf-16_be').replace('/'.encode('utf-16_be'), b'/')
                     t = jt.get(key)
+                    if t and v[0] == 'file':
+                        jbytes.append(t[2] == content_m[v[1]] and Eq(V.mk_bytes(R.file_bytes(im, t[1])), a.contents[v[1]]))
                     if t and v[0] == 'file' and content_m[v[1]]:
                         same.append(t[1][0][0] in extent_of_content.get(v[1], {t[1][0][0]}) and t[2] == content_m[v[1]])
                 cl['joliet-files-point-at-the-iso9660-data'] = all(same)
+                cl['joliet-files-read-back-byte-for-byte'] = And(*jbytes) if jbytes else True
+                cl['joliet-escape-sequence-is-the-requested-level'] = jsvd[0]['escape'][:3] == {1: b'%/@', 2: b'%/C', 3: b'%/E'}[kw['joliet']]
+                idents = [ch.name for d, parent, path in jr.dirs_in_order for ch in d.children]
+                cl['joliet-identifiers-are-ucs2-of-at-most-64-units'] = all(len(n) % 2 == 0 and len(n) <= 128 for n in idents)
                 cl['joliet-volume-size-agrees'] = jsvd[0]['space_size'] == pvd['space_size']
         # C08: Rock Ridge
         ce_areas = []
@@ -424,6 +439,7 @@ class Reopened(Base):
     untouched file still has its bytes (for EVERY content)."""
     target = S.PC + '.open_fp'
     script = 'plain-small'
+    edit = True         # False: stop after the fixpoint clause (C01 uses the reopen + fixpoint part only; the edits are C02's subject)
     crosscheck = False
     label = property(lambda self: 'pycdlib.PyCdlib.open_fp<%s>' % self.script)
 
@@ -445,6 +461,8 @@ class Reopened(Base):
         cl['remastering-succeeds'] = ok
         if ok:
             cl['remastering-is-a-fixpoint'] = Eq(again, a.img)
+        if not self.edit:
+            return cl
         # C02: edit the opened image
         files = sorted(p for p, v in iso_m.items() if v[0] == 'file' and p.count('/') == 1)
         extra = c.bytes('extra_content', 10)
